@@ -166,7 +166,7 @@ func ExpressionPrecedence(expr ExpressionNode) uint8 {
 		*UntilExpressionNode, *ForInExpressionNode, *NumericForExpressionNode,
 		*TypeExpressionNode, *ClosureLiteralNode, *ConstantDeclarationNode,
 		*DoubleSplatExpressionNode, *SplatExpressionNode, *QuoteExpressionNode,
-		*AwaitExpressionNode, *DeferExpressionNode,
+		*AwaitExpressionNode, *DeferExpressionNode, *PatternExpressionNode,
 		*VariableDeclarationNode, *ValueDeclarationNode,
 		*VariablePatternDeclarationNode, *ValuePatternDeclarationNode:
 		return 20
